@@ -239,12 +239,13 @@ func respRule(c *core.Ctx, t *c10type, byNamed map[*types.TypeName]*c10type) {
 
 // dispatcher discovery: a function returning (PDU, error) that switches and assigns new(T).
 type dispatcher struct {
-	fn     *types.Func
-	decl   *ast.FuncDecl
-	pkg    string
-	cases  map[uint64]*types.TypeName
-	sw     *ast.SwitchStmt
-	pduVar types.Object
+	fn        *types.Func
+	decl      *ast.FuncDecl
+	pkg       string
+	cases     map[uint64]*types.TypeName
+	sw        *ast.SwitchStmt
+	pduVar    types.Object
+	undecided []string
 }
 
 func findDispatchers(c *core.Ctx, byNamed map[*types.TypeName]*c10type) []*dispatcher {
@@ -303,12 +304,78 @@ func findDispatchers(c *core.Ctx, byNamed map[*types.TypeName]*c10type) []*dispa
 				})
 				if disp.sw != nil {
 					disp.fn, _ = pkg.TypesInfo.Defs[fd.Name].(*types.Func)
+					evaluateDispatcher(c, disp, pkg.TypesInfo, byNamed)
 					out = append(out, disp)
 				}
 			}
 		}
 	}
 	return out
+}
+
+// evaluateDispatcher recomputes the id -> type table by abstractly executing the dispatcher once per candidate id
+// (every constant compared with the command field anywhere in the function, plus every id of the package's PDU types).
+func evaluateDispatcher(c *core.Ctx, d *dispatcher, info *types.Info, byNamed map[*types.TypeName]*c10type) {
+	root, chain, ok := rootedChain(info, d.sw.Tag)
+	if !ok {
+		return // keep the syntactic table
+	}
+	cands := map[uint64]bool{}
+	for k := range d.cases {
+		cands[k] = true
+	}
+	ast.Inspect(d.decl.Body, func(n ast.Node) bool {
+		switch x := n.(type) {
+		case *ast.CaseClause:
+			for _, e := range x.List {
+				if v, ok := constantUint(info.Types[e]); ok {
+					cands[v] = true
+				}
+			}
+		case *ast.BinaryExpr:
+			for _, e := range []ast.Expr{x.X, x.Y} {
+				if tv := info.Types[e]; tv.Value != nil {
+					if v, ok := constantUint(tv); ok && v > 0 {
+						cands[v] = true
+					}
+				}
+			}
+		}
+		return true
+	})
+	for _, t := range byNamed {
+		if t.Rel == d.pkg {
+			for _, id := range t.IDs {
+				cands[uint64(id)] = true
+			}
+		}
+	}
+	table := map[uint64]*types.TypeName{}
+	d.undecided = nil
+	for K := range cands {
+		k := K
+		x := &symExec{prog: c.Prog, K: &k, tagRoot: root, tagChain: chain, assumeNoError: true}
+		v := x.run(d.fn, nil)
+		switch {
+		case v.kind == sStruct && v.ptr:
+			if nt, ok := v.typ.(*types.Named); ok && byNamed[nt.Obj()] != nil {
+				table[K] = nt.Obj()
+			}
+		case v.kind == sNil:
+			// unsupported
+		default:
+			d.undecided = append(d.undecided, fmt.Sprintf("%#x: %s %s", K, v.String(), x.undecided))
+		}
+	}
+	// an id that appears nowhere must be answered without a PDU
+	probe := uint64(0x7ffffff1)
+	x := &symExec{prog: c.Prog, K: &probe, tagRoot: root, tagChain: chain, assumeNoError: true}
+	if v := x.run(d.fn, nil); v.kind != sNil {
+		d.undecided = append(d.undecided, "an unknown command id is not answered with a nil PDU: "+v.String())
+	}
+	if len(d.undecided) == 0 {
+		d.cases = table
+	}
 }
 
 func constantUint(tv types.TypeAndValue) (uint64, bool) {
@@ -355,6 +422,9 @@ func dispatchRule(c *core.Ctx, all []*c10type, byNamed map[*types.TypeName]*c10t
 			} else {
 				c.OK("C10-CMD", key, pos, fmt.Sprintf("%#x -> %s", K, t.Key()))
 			}
+		}
+		for _, u := range d.undecided {
+			c.Unknown("C10-CMD", name+"#eval", c.Prog.Pos(d.decl.Pos()), "the dispatcher could not be evaluated for command id "+u)
 		}
 		dispatchShape(c, d, name)
 	}
